@@ -92,18 +92,27 @@ CUSTOMS_ALT = {
 
 _custom_cache = {}
 _variant = [0]
+# "cn": 1 in a circuit spec: the same definitions under names that differ from a built-in gate's name only in
+# letter case (legal: custom gate names merely must not BE built-in names)
+CASE_ALIASES = {"MyRot": "rx", "MyFixed": "h", "MyPhase2": "ms", "MyPerm3": "Swap3", "MyNonUnitary": "s"}
+_alias = [0]
+# ephemeral definitions: a fresh CustomGateDefinition object per call (nothing in the harness keeps it alive)
+EPHEMERAL_DEFS = [False]
 
 
 def custom_def(name):
     from orquestra.quantum import circuits as C
 
-    key = (name, _variant[0])
-    if key not in _custom_cache:
+    key = (name, _variant[0], _alias[0])
+    if key not in _custom_cache or EPHEMERAL_DEFS[0]:
         d = CUSTOMS_EXTRA[name] if name in CUSTOMS_EXTRA else (CUSTOMS_ALT if _variant[0] else CUSTOMS)[name]
         syms = [sympy.Symbol(p) for p in d["params"]]
         loc = {p: s for p, s in zip(d["params"], syms)}
         mat = sympy.Matrix([[sympy.sympify(e, locals=loc) for e in row] for row in d["matrix"]])
-        _custom_cache[key] = C.CustomGateDefinition(name, mat, tuple(syms))
+        gd = C.CustomGateDefinition(CASE_ALIASES.get(name, name) if _alias[0] else name, mat, tuple(syms))
+        if EPHEMERAL_DEFS[0]:
+            return gd
+        _custom_cache[key] = gd
     return _custom_cache[key]
 
 
@@ -156,10 +165,12 @@ def build_circuit(c):
     from orquestra.quantum import circuits as C
 
     _variant[0] = int(c.get("cv", 0))
+    _alias[0] = int(c.get("cn", 0))
     try:
         return C.Circuit([build_op(o) for o in c["ops"]], c.get("n"))
     finally:
         _variant[0] = 0
+        _alias[0] = 0
 
 
 def build_pauli(spec):
